@@ -259,6 +259,8 @@ pub struct KObs {
     /// (token, index of the reply within that request's reply group, offset in the reply stream at
     /// which the reply's terminating NUL has been delivered)
     pub frame_ends: Vec<(String, usize, usize)>,
+    /// event sequence numbers of client-side reads that returned data
+    pub cli_reads: Vec<u64>,
 }
 
 type Results = Arc<StdMutex<Vec<OpRec>>>;
@@ -667,6 +669,12 @@ pub fn run_k(case: &KCase) -> (SimEnd, crate::sched::SimStats, KObs) {
         o.eof_fired = closed && c.eof_after.is_some();
         o.max_in_buffer_frames = max_frames;
         o.frame_ends = frame_ends;
+        o.cli_reads = w
+            .log
+            .iter()
+            .filter(|(_, _, e)| matches!(e, crate::net::Ev::CliRecv { what: "data", .. }))
+            .map(|(s, _, _)| *s)
+            .collect();
     });
     let mut o = std::mem::take(&mut *out.lock().unwrap_or_else(|e| e.into_inner()));
     o.ops.sort_by_key(|r| (r.inv, r.ret));
@@ -868,6 +876,18 @@ pub fn judge_k(case: &KCase, end: &SimEnd, o: &KObs) -> (Vec<Violation>, bool) {
                     }
                     if main.outcome != "Ok" && !(faulty && conn_level(&main.outcome)) {
                         v.push(viol("C04", "client-oneway", format!("{} oneway() returned {}", token, main.outcome)));
+                    }
+                    // with a single client thread, whatever is read from the connection between the
+                    // invocation and the return of oneway() was read by oneway()
+                    if case.tasks.len() == 1 {
+                        let n = o.cli_reads.iter().filter(|s| **s > main.inv && **s < main.ret).count();
+                        if n > 0 {
+                            v.push(viol(
+                                "C04",
+                                "client-oneway",
+                                format!("{} oneway() read from the connection {} time(s) before it returned ({}): a oneway call consumes no reply", token, n, main.outcome),
+                            ));
+                        }
                     }
                     if main.outcome == "Ok" && !sent && !faulty {
                         v.push(viol("C04", "client-oneway", format!("{} oneway() returned Ok but nothing reached the server", token)));
@@ -1541,7 +1561,17 @@ pub fn c05_spaces(tier: Tier) -> Vec<Space> {
                 let mut ops = Vec::new();
                 for _ in 0..rng.range(1, 3) {
                     let k = rng.range(0, 8) as u8;
-                    ops.push(KOp::More { conts: k, fin: rng.pick(&specs).clone(), nexts: k + 1 + rng.range(0, 2) as u8, nested: rng.chance(1, 4) });
+                    // now and then an iteration is walked away from before its final reply: the
+                    // connection then belongs to it for good, whatever comes next is refused as busy
+                    let nexts = if k > 0 && rng.chance(1, 10) { rng.range(0, k as u64) as u8 } else { k + 1 + rng.range(0, 2) as u8 };
+                    ops.push(KOp::More { conts: k, fin: rng.pick(&specs).clone(), nexts, nested: rng.chance(1, 4) });
+                    // a call that the client refuses before it writes anything (parameters that do not
+                    // serialise, a call object used twice) between an iteration and the next call
+                    match rng.below(12) {
+                        0 => ops.push(KOp::Unser { mode: rng.below(3) as u8 }),
+                        1 => ops.push(KOp::Resend(RSpec::Ok)),
+                        _ => {}
+                    }
                     if rng.chance(1, 2) {
                         ops.push(KOp::Call(rng.pick(&specs).clone()));
                     }
@@ -1661,10 +1691,12 @@ pub fn c04_spaces(tier: Tier) -> Vec<Space> {
             gen: Box::new(move |_idx, seed| {
                 let mut rng = Rng::new(seed);
                 let nt = rng.range(1, 3) as usize;
+                // now and then an iteration is walked away from: the connection then stays busy
+                let abandon = rng.chance(1, 4);
                 let tasks: Vec<Vec<KOp>> = (0..nt)
                     .map(|_| {
                         (0..rng.range(1, 6))
-                            .map(|_| if rng.chance(1, 2) { KOp::Oneway } else { random_op(&mut rng, &specs, false) })
+                            .map(|_| if rng.chance(1, 2) { KOp::Oneway } else { random_op(&mut rng, &specs, abandon) })
                             .collect()
                     })
                     .collect();
